@@ -2,12 +2,12 @@
 """usage: seed_keep.py <PROP> <A|B> <needs> <detected-by>   -- store a confirmed seeded change under /verif/seeded/"""
 import json, os, shutil, sys
 P, X, needs, detected = sys.argv[1:5]
-src = '/tmp/seed/out/%s' % P
-dst = '/verif/seeded/%s-%s' % (P, X)
+src = '%s/%s' % (os.environ.get('SEED_OUT', '/tmp/seed/out'), P)
+dst = '/verif/seeded/%s-%s' % (P, os.environ.get('SEED_NAME', X))
 os.makedirs(dst, exist_ok=True)
 shutil.copy('%s/mut%s.diff' % (src, X), '%s/patch.diff' % dst)
 shutil.copy('%s/demo%s.py' % (src, X), '%s/demo.py' % dst)
-val = open('/tmp/seed/val/%s_%s.txt' % (P, X)).read()
+val = open('/tmp/seed/val/%s%s_%s.txt' % (os.environ.get('SEED_TAG', ''), P, X)).read()
 open('%s/validation.txt' % dst, 'w').write(val)
 meta = {
     'property': P, 'id': '%s-%s' % (P, X), 'origin': 'independent sub-agent given only the property text and a scratch worktree',
